@@ -668,6 +668,14 @@ pub fn post_driver(data: &[u8], _ctx: &[Vec<u8>], _a: [u32; 3], w: &mut Walker) 
     };
     let n = post.num_names();
     w.u(n as u64);
+    if let Some(strings) = post.string_data() {
+        crate::drivers::varlen_obs(
+            "VarLenArray<PString>::get vs iter",
+            &strings,
+            |r| r.as_ref().map(|s| s.as_str().to_string()).map_err(|e| format!("{e:?}")),
+            w,
+        );
+    }
     // glyph_name(i) walks the string data (VarLenArray::get is linear): bounded sample of ids
     let mut gids: Vec<u32> = (0..(n as u32).min(1024)).collect();
     gids.extend(gid_boundaries(n as u32));
@@ -705,6 +713,12 @@ pub fn fvar_driver(data: &[u8], ctx: &[Vec<u8>], a: [u32; 3], w: &mut Walker) {
     let avar = avar_b.and_then(|b| Avar::read(FontData::new(b)).ok());
     if let Some(av) = &avar {
         let maps = av.axis_segment_maps();
+        crate::drivers::varlen_obs(
+            "VarLenArray<SegmentMaps>::get vs iter",
+            &maps,
+            |r| r.as_ref().map(|m| (m.position_map_count(), m.axis_value_maps().len())).map_err(|e| format!("{e:?}")),
+            w,
+        );
         let mut n = 0u64;
         for m in maps.iter() {
             n += 1;
